@@ -333,7 +333,7 @@ Definition outcome_val (o : outcome) : val :=
   | NoChange => VL [VZ 1]
   | DryRun c => VL [VZ 2; VZ (Z.of_nat c)]
   | Aborted e => VL [VZ 3; VE e]
-  | RollbackFailed e => VL [VZ 4; VE e]
+  | RollbackFailed e => VL [VZ 3; VE e]   (* the caller sees an exception either way; the state differs *)
   | Refused e => VL [VZ 5; VE e]
   end.
 Definition commit_val (cm : commit) : val :=
